@@ -212,25 +212,13 @@ def audit_reported(rec, rtol=1e-6):
                             {"series": name, "month": m, "reported": xs[m], "solved": sol[m]}))
                 break
     # ---- no reported quantity is negative (percent-people-fed series; rounding of the report is 3 decimals at most)
-    KNOWN_IMM = "C01:reported-immediate-crops-negative@Extractor.extract_outdoor_crops_results"
-    crop_out = [f + b for f, b in zip(series(vals, CR_f, n), series(vals, CR_b, n))]
     for name in ("stored_food", "outdoor_crops", "seaweed", "cell_sugar", "scp", "greenhouse", "fish", "meat", "milk",
-                 "immediate_outdoor_crops", "new_stored_outdoor_crops") + tuple(REPORTED_SLOTS):
+                 "immediate_outdoor_crops", "new_stored_outdoor_crops", "immediate_outdoor_crops_kcals_equivalent") + tuple(REPORTED_SLOTS):
         r = rep.get(name)
         if r is None:
             continue
         for m, x in enumerate(r["kcals"][:n]):
-            if x < -1e-6:
-                if name == "immediate_outdoor_crops" and "percent people fed" in r["units"]:
-                    # the recorded mechanism: the split subtracts feed and biofuel expressed in 'billion people fed' from a
-                    # production in billion kcals, so a month without harvest shows -(feed + biofuel from crops) / KCALS_MONTHLY^2
-                    # billion people; anything more negative than that is a different violation
-                    km = d["kcals_monthly_pp"]
-                    bound = crop_out[m] / (km * km) / (d["pop"] / 1e9) * 100.0
-                    if x >= -bound * (1 + 1e-6) - 1e-6:
-                        out.append((KNOWN_IMM, f"month {m}: 'outdoor crops eaten immediately' is reported as {x} percent people fed",
-                                    {"series": name, "month": m, "value": x, "mechanism_bound": -bound}))
-                        break
+            if x < -1e-9:
                 out.append(("C01:reported-negative-quantity", f"{name} month {m}: reported {x} ({r['units']})",
                             {"series": name, "month": m, "value": x}))
                 break
